@@ -7,7 +7,16 @@ MD = "func_adl/ast/meta_data.py"
 
 HSH = "func_adl/ast/ast_hash.py"
 
+OS_ = "func_adl/object_stream.py"
+
 MUTANTS = {
+    "C16": [
+        {"name": "replace-not-merge", "edits": [(OS_, '                **getattr(base_ast, "_q_metadata", {}),\n', '')]},
+        {"name": "always-descend", "edits": [(MD, "            if not found:\n                super().generic_visit(node)", "            super().generic_visit(node)")]},
+        {"name": "no-copy", "edits": [(OS_, "new_self = self.clone_with_new_ast(copy.copy(base_ast), self.item_type)", "new_self = self.clone_with_new_ast(base_ast, self.item_type)")]},
+        {"name": "skip-equal-check-inverted", "edits": [(OS_, "            elif found_md != v:", "            elif found_md == v:")]},
+        {"name": "qmd-as-metadata", "edits": [(OS_, "            return new_self\n        else:", "            return new_self.MetaData({}) if len(q_metadata) > 2 else new_self\n        else:")]},
+    ],
     "C20": [
         {"name": "include-attributes", "edits": [(HSH, "ast.dump(a).encode", "ast.dump(a, include_attributes=True).encode")]},
         {"name": "hash-unparse", "edits": [(HSH, "ast.dump(a).encode", "ast.unparse(a).encode")]},
